@@ -113,6 +113,15 @@ func mutatingPost(n *spec.Node) func(ptr any) error {
 }
 
 func mutateSliceInPlace(e reflect.Value) {
+	if e.CanSet() && e.Len() < e.Cap() {
+		// append within the capacity the slice already has
+		switch e.Type().Elem().Kind() {
+		case reflect.String:
+			e.Set(reflect.Append(e, reflect.ValueOf("appended").Convert(e.Type().Elem())))
+		case reflect.Int, reflect.Int64, reflect.Int32:
+			e.Set(reflect.Append(e, reflect.ValueOf(777).Convert(e.Type().Elem())))
+		}
+	}
 	for i := 0; i < e.Len(); i++ {
 		x := e.Index(i)
 		switch x.Kind() {
@@ -149,7 +158,15 @@ func c19Schema(r *rng.Rand) (*spec.Node, bool) {
 		}
 		seen[x] = true
 		if x.Kind == spec.Slice && x.Elem.Kind == spec.Slice && x.Elem.Elem.Kind == spec.String && r.Intn(2) == 0 {
-			x.Mods = append(x.Mods, spec.Mod{Op: spec.MDefault, Val: [][]string{{"d1", "d2"}, {"d3"}}})
+			def := [][]string{{"d1", "d2"}, {"d3"}}
+			if r.Bool() {
+				// rows that are empty but own a buffer (buf[:0], make([]T, 0, n)), and a row with spare capacity
+				def = [][]string{make([]string, 0, 4), append(make([]string, 0, 3), "d3"), {}}
+			}
+			x.Mods = append(x.Mods, spec.Mod{Op: spec.MDefault, Val: def})
+			special = true
+		} else if x.Kind == spec.Slice && x.Elem.Kind == spec.String && !x.Eff().HasDefault && r.Intn(6) == 0 {
+			x.Mods = append(x.Mods, spec.Mod{Op: spec.MDefault, Val: [][]string{make([]string, 0, 4), append(make([]string, 0, 4), "dd")}[r.Intn(2)]})
 			special = true
 		}
 		if x.Kind == spec.Slice && x.Eff().HasDefault {
@@ -333,7 +350,7 @@ func (c19) RunCase(c *core.Ctx) {
 		valsBefore := snapAll(vals)
 		inputBefore := obs.Snapshot(in.data)
 		var out *run.Outcome
-		aliased := false
+		aliased, spare := false, false
 		if mode == ref.Parse && c.R.Intn(3) == 0 {
 			// the caller's destination already holds slices that share their arrays with the input ("start from the current
 			// values", Parse(tags, &tags)) or with the schema's defaults (cfg.Tags = defaultTags): Parse must not write through them
@@ -352,6 +369,7 @@ func (c19) RunCase(c *core.Ctx) {
 			vp := run.NewDest(n, in.val)
 			if c.R.Bool() {
 				spareCapacity(vp.Elem(), 0) // empty slices that still own a buffer (s = s[:0], make([]T, 0, n))
+				spare = true
 			}
 			out = run.ValidatePtr(b, vp)
 		}
@@ -390,7 +408,7 @@ func (c19) RunCase(c *core.Ctx) {
 			// whether a post-transform ran before another node failed depends on the visit order (tolerated): the values carried by issues are left out
 			res = obs.Multiset(out.Issues, func(ci obs.CI) string { return ci.Key + "|" + ci.Triple() + "|" + ci.Message + "|" + ci.Params })
 		}
-		key := fmt.Sprintf("%s|%x", mode, obs.Snapshot(input))
+		key := fmt.Sprintf("%s|%x|%v", mode, obs.Snapshot(input), spare) // (an appending transform sees whether an empty slice owns a buffer)
 		if prev, ok := firstResult[key]; ok && prev != res {
 			c.Violation("schema-behaves-differently-on-later-use|"+mode.String(), det(map[string]any{"first_result": prev, "this_result": res}))
 			return
